@@ -90,7 +90,22 @@ func ctLoadPoints(path string) map[int]ctPoint {
 		if err != nil {
 			continue
 		}
-		m[id] = ctPoint{file: strings.SplitN(w[1], ":", 2)[0], op: w[3], expr: w[4]}
+		// "file" is a role, decided by the function the point is in (so that moving functions between files changes nothing):
+		// the methods of Buffer are "buffer.go", WaitCond is "sync.go"
+		file := strings.SplitN(w[1], ":", 2)[0]
+		for _, x := range w[5:] {
+			if strings.HasPrefix(x, "fn=") {
+				switch fn := x[3:]; {
+				case strings.HasPrefix(fn, "Buffer."):
+					file = "buffer.go"
+				case fn == "WaitCond":
+					file = "sync.go"
+				default:
+					file = "-"
+				}
+			}
+		}
+		m[id] = ctPoint{file: file, op: w[3], expr: w[4]}
 	}
 	return m
 }
